@@ -252,7 +252,7 @@ func (g *G) inline(c ictx, first bool) Inline {
 			}
 			return Strong{ch}
 		case 7:
-			return g.code()
+			return g.code(!c.oneLine)
 		case 8:
 			if c.inLink || c.depth >= 3 {
 				continue
@@ -274,8 +274,11 @@ func (g *G) inline(c ictx, first bool) Inline {
 			t := g.titleOpt()
 			return Image{g.inlines(cc, 3), g.url(), t}
 		case 10:
-			if c.inLink {
+			if c.inLink && !c.inImage {
 				continue
+			}
+			if c.inImage {
+				altAutoCount++
 			}
 			if g.s.Intn(8) == 0 {
 				// scheme length at the limits: 2 and 32 characters make an autolink, 1 and 33 do not
@@ -284,7 +287,7 @@ func (g *G) inline(c ictx, first bool) Inline {
 			}
 			return Auto{g.autoURL(), false}
 		case 11:
-			if c.inLink {
+			if c.inLink && !c.inImage {
 				continue
 			}
 			return Mail{g.word() + "@" + g.word() + "." + g.word()}
@@ -300,7 +303,7 @@ func (g *G) inline(c ictx, first bool) Inline {
 			if !c.inLink && g.s.Intn(4) == 0 {
 				// link look-alikes just outside the rules ([zzn] is never defined): an unescaped '<' inside a <...>
 				// destination, a space in a bare destination, text after the title, a space before '(', text after
-				// a <...> destination, unbalanced parentheses, an unclosed title, an unclosed <...> destination
+				// a <...> destination
 				nl := notLinks[g.s.Intn(len(notLinks))]
 				notLinkCount++
 				return NotLink{nl[0], nl[1]}
@@ -334,7 +337,7 @@ func (g *G) emphChildren(c ictx) []Inline {
 	return mergeTexts(out)
 }
 
-func (g *G) code() Code {
+func (g *G) code(allowNL bool) Code {
 	n := 1 + g.s.Intn(4)
 	var sb strings.Builder
 	for i := 0; i < n; i++ {
@@ -353,6 +356,17 @@ func (g *G) code() Code {
 	s := sb.String()
 	if strings.TrimSpace(s) == "" {
 		s = g.word()
+	}
+	if allowNL && coin(g.s, 1, 4) {
+		// a line ending inside the code span (it reads as a space): only where a letter follows, so that the
+		// continuation line cannot look like a block start
+		for i := 1; i+1 < len(s); i++ {
+			if s[i] == ' ' && s[i-1] != ' ' && (s[i+1]|0x20) >= 'a' && (s[i+1]|0x20) <= 'z' {
+				s = s[:i] + "\n" + s[i+1:]
+				codeNLCount++
+				break
+			}
+		}
 	}
 	return Code{s}
 }
@@ -534,12 +548,13 @@ func caseVariant(s Src, lab string) string {
 
 // ---------------- blocks ----------------
 
-var labelNLCount, nearMissCount, longTextCount, emptyItemCount, notLinkCount int
+var labelNLCount, nearMissCount, longTextCount, emptyItemCount, notLinkCount, codeNLCount, altAutoCount int
 
 var notLinks = [][2]string{
 	{"[zzn](<x<y>)", "[zzn](&lt;x<y>)"}, {"![zzn](<x<y>)", "![zzn](&lt;x<y>)"}, {"[zzn](a b)", "[zzn](a b)"},
 	{"[zzn](/u \"t\" x)", "[zzn](/u &quot;t&quot; x)"}, {"[zzn] (/u)", "[zzn] (/u)"}, {"[zzn](<b>c)", "[zzn](<b>c)"},
-	{"[zzn](a(b)", "[zzn](a(b)"}, {"[zzn](/u 't)", "[zzn](/u 't)"}, {"[zzn](<a b)", "[zzn](&lt;a b)"}, {"[zzn](<x\\<y<z>)", "[zzn](&lt;x&lt;y<z>)"},
+	{"[zzn](<x\\<y<z>)", "[zzn](&lt;x&lt;y<z>)"},
+	// (look-alikes that are merely unclosed - "(a(b", an unclosed title or <...> - are not used: what follows may close them)
 }
 var avoidWSOnly = true
 var excludedF19 int
